@@ -32,6 +32,7 @@ func init() {
 					r.Unresolved("no error assignment found")
 				}
 			}},
+			{ID: "C05.R13", Floor: 1, Doc: "readTypeInfo returns the plain NativeType only for ids that are not tuple, UDT, map, list or set: the unchecked assertions of the decoders rely on the concrete type following Type()", Run: c05r13},
 			{ID: "C05.R12", Floor: 1, Doc: "no `if err := ..` whose body falls through hides the call's error from code that reads an outer err afterwards", Run: func(p *Program, r *Report) {
 				if shadowedErrors(p, r, func(fi *FuncInfo) bool { return fi.Pkg == p.Root || strings.Contains(fi.Pkg.PkgPath, "/internal/") }, "shadowed error") == 0 {
 					r.OK(nil, "no if-init shadows an outer error variable", "0 candidates")
